@@ -41,7 +41,11 @@ def _with_common_options(f):
         # integer mode lists: sometimes one entry in its negative (count-from-the-end) spelling
         nd = next((v.ndim for k, v in kw.items() if k in ("tensor", "input_tensor", "X", "data_tensor") and isinstance(v, np.ndarray)), None)
         if nd:
-            for k in ("modes", "fixed_modes", "nn_modes", "row_modes", "column_modes"):
+            # every option whose name says "list of modes" (round 16, c15B: `fixed_factors` of tucker was not in the
+            # hand-written list) - the value test below keeps lists of arrays / ranks out
+            mode_keys = [k for k in kw if k in ("modes", "fixed_modes", "nn_modes", "row_modes", "column_modes", "fixed_factors")
+                         or k.endswith("_modes") or k.endswith("_mode_list")]
+            for k in mode_keys:
                 v = kw.get(k)
                 if isinstance(v, (list, tuple)) and v and all(isinstance(m, int) and 0 <= m < nd for m in v):
                     if g.flag(0.3):
